@@ -550,3 +550,34 @@ def creation_is_atomic(ck, cls, tag, rule):
               "%s: `%s` is not guarded by a test of the thread / worker pointer made under the same critical section (check-then-act): two callers of moveToOwnThread() both pass the unlocked test, are serialised "
               "by the mutex and both create a thread and a worker - two logger threads run the handler at the same time, messages posted to the first worker are overtaken, and resetOwnThread() stops only the second" % (tag, describe(c)[:30]),
               key="moveToOwnThread|check-then-create")
+
+
+def mode_predicates_agree(ck, cls, tag, rule):
+    """two unlocked observers decide "asynchronous or not": process() by the worker pointer (under the mutex), Logger::processMessage() - for the flush of a
+    fatal message - by ownThreadIsRunning() (the thread object, no mutex).  They agree as long as the stop never lets go of the mutex between "the worker is
+    gone" and "the thread has stopped": resetOwnThread() either clears the worker pointer after wait() has returned, or keeps the mutex from the clear to the wait."""
+    F = ck.facts
+    rs = [f for f in F.fns.values() if f.cls == cls and f.name == cls + "::resetOwnThread"]
+    ck.require(len(rs) == 1, "%s: resetOwnThread not found" % tag)
+    rs = F.flat(rs[0])
+    ck.touch(rs)
+    g = Graph(rs)
+    lf = LockFlow(F, rs, g)
+    W, M = OT + "::m_worker", OT + "::m_mutex"
+    clears = [n for n in rs.find(lambda n: n.get("k") == "binop" and n.get("op") == "=" and is_this_field(n.get("lhs"), W) and skip_copies(n.get("rhs")).get("k") == "null_lit")]
+    clears += [n for n in rs.calls() if n.get("ck") == "member" and is_this_field(n.get("obj"), W) and name_is(n.get("callee"), ("clear", "reset"))]
+    waits = [n for n in rs.calls("QThread::wait")]
+    if not clears or not waits:
+        ck.ob(rule, sitestr(rs), None, "%s: resetOwnThread: clear / wait anchors not found (%d/%d)" % (tag, len(clears), len(waits)), key="resetOwnThread|mode-window")
+        return
+    wsites = set(g.sites_of_nodes(waits))
+    for c in clears:
+        cs = g.site_of(c)
+        if g.dominated(cs, wsites):
+            ck.ob(rule, sitestr(rs, c), True, "%s: the worker pointer is cleared after wait() has returned: whenever process() runs synchronously the thread has stopped, so a fatal message is flushed" % tag, key="resetOwnThread|mode-window")
+            continue
+        region = g.reach([cs], blocked=wsites)
+        free = sorted(k for k in region if k != g.exit and not any(m == M for m, _ in lf.IN.get(k, ())))
+        ck.ob(rule, sitestr(rs, c), not free, "%s: the mutex is held from the clearing of the worker pointer until wait()" % tag if not free else
+              "%s: the worker pointer is cleared and the mutex released while the thread is still running: in that window process() already runs the pipeline in the caller's thread, but ownThreadIsRunning() "
+              "is still true, so Logger::processMessage() skips the flush of a fatal message - the record and everything buffered before it are lost when Qt aborts" % tag, key="resetOwnThread|mode-window")
